@@ -92,6 +92,9 @@ func complementCmp(t *Term) *Term {
 	return mk(&Term{Op: op, Args: []*Term{t.Args[1], t.Args[0]}, Sort: BoolSort})
 }
 
+// finalUsed: heap families treated as write-once fields in this run (reported in the evidence).
+var finalUsed = map[string]bool{}
+
 // heapSorts remembers the sort of each heap family array.
 var heapSorts = map[string]*Sort{}
 
@@ -108,6 +111,7 @@ func (s *State) heap(name string, srt *Sort) *Term {
 		return Var("ghost0|"+name, srt)
 	}
 	if finalProg != nil && finalProg.finalFamily(name) {
+		finalUsed[name] = true
 		// final fields: the contents for objects that exist do not depend on what was executed
 		registerFinalHeapFact(name, srt)
 		return Var("final|"+name, srt)
